@@ -362,7 +362,10 @@ def oracle_c10(kind, hexin):
         t = {"u32": 4, "i32": 4, "f32": 4, "bool": 4, "u64": 8, "i64": 8, "f64": 8,
              "vec_u32": 4 + 4 * n, "vec_u64": 4 + 8 * n, "slice_u32": 4 * n, "slice_u8": ru4(n),
              "opt_none": 4, "opt_some_u64": 12, "box_u32": 4, "string": 4 + ru4(n), "bytes": n,
-             "vec_string": 4 + 4 + ru4(n) + 4 + ru4(n + 1)}
+             "vec_string": 4 + 4 + ru4(n) + 4 + ru4(n + 1),
+             "slice_string": 12 + ru4(n) + ru4(n + 1) + ru4(n + 5), "arr_string": 8 + ru4(n + 2) + ru4(n),
+             "arr_opt": 12 + 4 + 12, "vec_vec": 4 + (4 + 4 * n) + (4 + 4 * (n + 1)),
+             "slice_vec": (4 + 8 * (n + 1)) + (4 + 8 * n)}
         return "W %d" % t[p[1]]
     return None
 
@@ -404,7 +407,8 @@ def c10_cases(run, N):
         cases.append(("@varbytes:-", 0, (struct.pack(">I", w) + pat(6)).hex()))
         cases.append(("@string:-", 0, (struct.pack(">I", w) + pat(6)).hex()))
     for k in ["u32", "i32", "f32", "bool", "u64", "i64", "f64", "vec_u32", "vec_u64", "slice_u32",
-              "slice_u8", "opt_none", "opt_some_u64", "box_u32", "string", "bytes", "vec_string"]:
+              "slice_u8", "opt_none", "opt_some_u64", "box_u32", "string", "bytes", "vec_string",
+              "slice_string", "arr_string", "arr_opt", "vec_vec", "slice_vec"]:
         for n in range(0, N + 1):
             cases.append(("@wsz:%s:%d" % (k, n), 0, ""))
     return cases
@@ -1155,6 +1159,27 @@ def check_c11(run):
                 perm = list(reversed(decls))
             texts.append(specgen.print_spec(perm))
             meta.append((di, "perm"))
+    # declarations that refer to one another by NAME in every way the grammar allows -- a constant
+    # defined by a constant, labels and bounds through such aliases, enum values by constant,
+    # typedef chains -- in ALL orders (anything resolved while the declarations are walked once
+    # depends on the order)
+    import itertools
+    xrefs = [
+        [("const", "NFS4_FHSIZE", "128"), ("const", "MAX_HANDLE", "NFS4_FHSIZE"),
+         ("struct", "fhs", [("unsigned int", "len", "", False), ("opaque", "h", "<NFS4_FHSIZE>", False)]),
+         ("union", "ux", "int", "k", [(["MAX_HANDLE"], ("data", "int", "a")), (["3"], ("void",))], None)],
+        [("const", "A1", "1"), ("const", "B1", "A1"), ("const", "C1", "B1"),
+         ("enum", "ex", [("M0", "0"), ("M1", "C1")]),
+         ("union", "uy", "unsigned int", "k", [(["C1", "5"], ("void",))], ("data", "hyper", "rest"))],
+        [("typedef", "int", "ta", ""), ("typedef", "ta", "tb", ""), ("typedef", "tb", "tc", "<>"),
+         ("struct", "usetc", [("tc", "xs", "", False), ("tb", "y", "[2]", False)])],
+        [("typedef", "opaque", "blobx", "<>"), ("typedef", "blobx", "blobs", "<4>"),
+         ("struct", "holdsb", [("blobs", "bs", "", False)]), ("union", "ub", "bool", "f", [(["TRUE"], ("data", "holdsb", "h"))], None)],
+    ]
+    for xi, decls in enumerate(xrefs):
+        for pi, perm in enumerate(itertools.permutations(decls)):
+            texts.append(specgen.print_spec(list(perm)))
+            meta.append((100000 + xi, "base" if pi == 0 else "perm"))
     base_di = len(decl_lists)
     graphs = specgen.graph_specs(2)
     grng = random.Random(run.seed + 99)
@@ -1378,6 +1403,9 @@ def hostile_texts(run):
         "", " ", "/* */", "//", "// only", "struct", "struct s", "struct s {", "struct s { int a; }", "enum e { A = 1, };", "const = 1;",
         "struct s { unsigned /*c*/ int x; };", "struct s { int/*c*/x; };", "typedef int a<4294967296>;", "typedef int a[4294967295];" if False else "typedef int a[3];",
         "struct s { int a[0]; };", "struct s { opaque a[0]; opaque b<0>; string c<0>; };", "const A = B; const B = A; struct s { int x[A]; };",
+        "const A = A; struct s { int x<A>; };", "const A = B; const B = C; const C = B; struct s { opaque o<A>; };",
+        "const A = B; const B = 3; typedef opaque t[A]; struct s { t x; int y[B]; };", "const A = A; typedef int ta<A>;",
+        "const A = A; union u switch (int k) { case A: void; };", "const A = B; const B = A; enum e { M = A };",
         "struct s { int a<>; };", "typedef uint32_t bitmap4<>;", "typedef string name<>;", "struct 1abc { int 2x; };", "const 1 = 2;",
         "struct é { int a; };", "struct s { int a; }; \x00", "struct s\r\n{\r\nint a;\r\n};\r\n", "struct s { int a; };;",
     ]
@@ -1426,6 +1454,10 @@ def check_c14(run):
         a, g = o["ast"], o["gen_default"]
         run.case(o["text"], {"text": o["text"][:100], "tree": "accepted" if o["tree"] else "rejected", "ast": a["outcome"], "generate": g["outcome"]}
                  if a["outcome"] != "ok" or g["outcome"] != "ok" else None)
+        if o.get("timed_out"):
+            run.violation("%s does not return within 20 s (it neither yields Ok/Err nor panics)" % a["site"].split(":", 1)[1],
+                          {"spec": o["text"], "stage": a["site"]})
+            continue
         run.count("grammar_" + ("accepts" if o["tree"] else "rejects"))
         run.count("generate_" + g["outcome"])
         if o["tree"] is None:
